@@ -29,7 +29,7 @@ func init() {
 type c14Script struct {
 	Method    string `json:"method"`
 	Point     string `json:"park_point"`
-	Role      string `json:"park_role"`   // "op" or "*" (rotation goroutine)
+	Role      string `json:"park_role"`  // "op" or "*" (rotation goroutine)
 	CloseMode string `json:"close_mode"` // during-park | close-parked-flagged | close-parked-locked
 	Real      bool   `json:"real_fs"`
 }
